@@ -106,6 +106,26 @@ CLAIMED = {
             "six decades; running-coupling bypass checked through the THDM Yukawa getters.",
             "m_b(SM5) reference re-implements hep-ph/0207126 formulas; one open known finding (Landau pole above m_b)",
             "4/C20"),
+    "C12": ("property-based testing (Hypothesis): validity predicates on every decomposition overload (reconstruction in the "
+            "documented convention, unitarity, sign, ordering, finite non-negative error bounds), value-only vs factor "
+            "overloads, metamorphic relations (permutation/phase/scale), structured degenerate generators",
+            "Generated real and complex matrices of the sizes the models instantiate (and the other sizes of the header) with "
+            "exactly repeated values, zero rows/columns, diagonal, rank-deficient, already-ordered and sign-patterned inputs, "
+            "scaled over 2^+-200; every returned factor comes back bit-exactly through the sanitizer executor and is judged "
+            "against the convention quoted from gm2_linalg.hpp, with one tolerance class per code path.",
+            "entries span at most 12 orders of magnitude as the property states (components below 1e-12 of the largest are "
+            "flushed to 0); complex symmetric (Takagi) input is checked as an extension class, the models use the real overload",
+            "4/C12"),
+    "C13": ("property-based testing (Hypothesis): metamorphic layout rewrites of generated inputs (library dump and program "
+            "output must be bit-identical), key -> parameter reference table, fault injection of damaged tokens",
+            "Generated SLHA, GM2Calc and THDM contents are rendered canonically and under eleven layout rewrites (block and "
+            "entry permutation, case, comments, whitespace/CRLF, number spellings, duplicated earlier entries and blocks, "
+            "blocks at other scales, foreign blocks, unknown keys); the filled structures are compared bit for bit through "
+            "the executor and the printed result through the program; damaged key/value tokens and invalid configuration "
+            "values must be rejected with an error.",
+            "key table written from README, SLHA conventions and shipped inputs (pbt/common/slha.py READ/ASSUMPTIONS); "
+            "subnormal spellings are excluded (std::stod reports underflow)",
+            "4/C13"),
     "C14": ("coverage-guided fuzzing (libFuzzer, in-process target with the semantic oracle inside, ASan+UBSan) + "
             "property-based structure-aware mutation (Hypothesis, subprocess under ASan/UBSan/LSan) + valgrind memcheck sample",
             "Byte-level campaigns from the shipped inputs and from an empty corpus with a block/key dictionary, structure-aware "
